@@ -126,6 +126,12 @@ pub struct Ans {
     /// writer: call flush() before the first write
     #[serde(default)]
     pub flush_first: bool,
+    /// respond: the body reader fails once this many bytes have been read from it ...
+    #[serde(default)]
+    pub fail_at: Option<usize>,
+    /// ... by panicking instead of returning an error
+    #[serde(default)]
+    pub fail_panic: bool,
 }
 
 fn default_status() -> u16 {
